@@ -149,7 +149,7 @@ ObsSDeliver(o, e) ==
                        /\ nonceKey \notin o.surfS
                        /\ d.seq + WINDOW > Get(o.maxSeen, <<d.key, "S">>, 0)
                        /\ r.type # "Payload"
-                    THEN {<<"C04", "Accept">>} ELSE {})
+                    THEN {<<"C04", "Accept">>, <<"C07", "StillAccepts">>} ELSE {})
         \* ---- C05: who may connect ----
         tsecs == Secs(now)
         reqOK(q) == q.addr = e.from /\ q.tok \in DOMAIN o.tok /\ o.tok[q.tok].id = r.id /\ o.tok[q.tok].ud = r.ud /\ q.valid
@@ -227,7 +227,7 @@ ObsCDeliver(o, e) ==
              \cup (IF e.res.some /\ nonceKey \in o.surfC THEN {<<"C04", "Once">>} ELSE {})
              \cup (IF /\ d.kind = "Payload" /\ d.label = "genuine" /\ d.intact /\ ~nonauth /\ e.cs0.status = "Connected"
                       /\ nonceKey \notin o.surfC /\ d.seq + WINDOW > Get(o.maxSeen, <<d.key, c>>, 0) /\ ~e.res.some
-                   THEN {<<"C04", "Accept">>} ELSE {})
+                   THEN {<<"C04", "Accept">>, <<"C07", "StillAccepts">>} ELSE {})
              \cup (IF nonauth /\ effect THEN {<<"C07", "NoEffect">>, <<"C17", "TamperEvident">>} ELSE {})
              \cup (IF (nonauth \/ d.label = "replay") /\ e.cs1.age < e.cs0.age THEN {<<"C18", "ForgeryDoesNotPostpone">>} ELSE {})
         surf1 == IF e.res.some THEN o.surfC \cup {nonceKey} ELSE o.surfC
